@@ -197,7 +197,7 @@ def run(rep):
                 res = ActionResult(r["success"], r["value"], discovered=pa(r.get("discovered", {})),
                                    newly_discovered=pa(r.get("newly_discovered", {})),
                                    connection_error=r["connection_error"], permission_error=r["permission_error"],
-                                   undefined_error=r["undefined_error"])
+                                   undefined_error=r["undefined_error"], access=r.get("access"))
                 obs = state.get_observation(act, res, rep["fully_obs"])
                 actual["obs_tensor"] = obs.tensor.tolist()
                 actual["obs_dtype"] = str(obs.tensor.dtype)
